@@ -38,6 +38,7 @@ CONSTANTS
   Deterministic = %(det)s
   Preamble <- %(preamble)s
   Traffic = %(traffic)s
+  Faults = %(faults)s
   Emit = %(emit)s
 %(tail)s
 CHECK_DEADLOCK FALSE
@@ -56,13 +57,14 @@ def tla_set(xs):
 def write_cfg(wd, name, **kw):
     d = dict(spec="Spec", listeners=["hA", "tC"], clusters=["c1", "c2"], hfronts=["f1", "f3"],
              tfronts=["t1", "t2"], backends=["b1"], verbs="VerbsCore", maxreq=4, afterstop="AfterStopKinds",
-             dev=[], det=False, preamble="NoPreamble", emit=False, traffic=False, tail=MC_TAIL)
+             dev=[], det=False, preamble="NoPreamble", emit=False, traffic=False, faults=False, tail=MC_TAIL)
     d.update(kw)
     for k in ("listeners", "clusters", "hfronts", "tfronts", "backends", "dev"):
         d[k] = tla_set(d[k])
     d["det"] = "TRUE" if d["det"] else "FALSE"
     d["emit"] = "TRUE" if d["emit"] else "FALSE"
     d["traffic"] = "TRUE" if d["traffic"] else "FALSE"
+    d["faults"] = "TRUE" if d["faults"] else "FALSE"
     path = os.path.join(wd, name)
     with open(path, "w") as f:
         f.write(CFG % d)
